@@ -17,6 +17,7 @@ SPEC = {
         "Sema.C17.C17_sort_score", "Sema.C17.C17_sort_keys",
         "Sema.C17.C17_route_nil", "Sema.C17.C17_routed_up", "Sema.C17.C17_route_unreachable", "Sema.C17.C17_route_zero_retries",
         "Sema.C17.C17_failed_message_routed", "Sema.C17.C17_failed_message_delete", "Sema.C17.C17_failed_message_routed_delete", "Sema.C17.C17_search_routed",
+        "Sema.C17.C17_failed_count_delete", "Sema.C17.C17_failed_count_update", "Sema.C17.C17_curate_count",
         "Sema.C17.C17_tie", "Sema.C17.C17_tie_sorted",
     ],
     "trusted_base": [
